@@ -50,7 +50,7 @@ FLEET['G1'] = dict(
         ('expr', ['lp', 'expr', 'rp'], 'plain'),
         ('expr', ['expr', 'div', 'expr'], 'ctx'),
     ],
-    values=['node', 'mnode'],
+    values=['node', 'mnode', 'inode'],
 )
 
 FLEET['G2'] = dict(
@@ -323,7 +323,7 @@ FLEET['G11'] = dict(
         ('stmt', ['x'], 'plain'),
         ('stmt', ['x', 'y', 'semi'], 'ctx'),
     ],
-    values=['node', 'mnode', 'pnode', 'xnode'],
+    values=['node', 'mnode', 'pnode', 'xnode', 'inode'],
 )
 
 
